@@ -15,6 +15,35 @@ pub enum Alg {
     /// optimal-fit with penalties (nline, overflow, fraction, short, hyphen)
     #[cfg(feature = "full")]
     Opt([usize; 5]),
+    /// WrapAlgorithm::Custom: every word on a line of its own
+    CustomOnePerLine,
+    /// WrapAlgorithm::Custom: a naive greedy algorithm without the "never flush an empty line"
+    /// guard (an over-wide first word leaves an empty first line)
+    CustomNaiveGreedy,
+}
+
+fn custom_one_per_line<'a, 'b>(words: &'b [textwrap::core::Word<'a>], _line_widths: &'b [usize]) -> Vec<&'b [textwrap::core::Word<'a>]> {
+    if words.is_empty() {
+        return vec![words];
+    }
+    (0..words.len()).map(|i| &words[i..i + 1]).collect()
+}
+
+fn custom_naive_greedy<'a, 'b>(words: &'b [textwrap::core::Word<'a>], line_widths: &'b [usize]) -> Vec<&'b [textwrap::core::Word<'a>]> {
+    let mut lines = vec![];
+    let mut start = 0;
+    let mut width = 0usize;
+    for (i, w) in words.iter().enumerate() {
+        let target = *line_widths.get(lines.len()).or(line_widths.last()).unwrap_or(&0);
+        if width.saturating_add(w.width).saturating_add(w.penalty.len()) > target {
+            lines.push(&words[start..i]); // may be empty: that is the point
+            start = i;
+            width = 0;
+        }
+        width = width.saturating_add(w.width).saturating_add(w.whitespace.len());
+    }
+    lines.push(&words[start..]);
+    lines
 }
 
 #[derive(Clone, Copy, Debug, PartialEq)]
@@ -94,6 +123,8 @@ impl Cfg {
             Alg::FirstFit => WrapAlgorithm::FirstFit,
             #[cfg(feature = "full")]
             Alg::Opt(p) => WrapAlgorithm::OptimalFit(penalties(p)),
+            Alg::CustomOnePerLine => WrapAlgorithm::Custom(custom_one_per_line),
+            Alg::CustomNaiveGreedy => WrapAlgorithm::Custom(custom_naive_greedy),
         };
         let spl = match self.spl {
             Spl::None => WordSplitter::NoHyphenation,
